@@ -66,7 +66,12 @@ partial def loop (h : IO.FS.Stream) (cur : Option (String × Replay × Nat × Op
       | agS :: rest =>
         let ag := agS.toNat?.getD 0
         match replayEvent r ag rest with
-        | .ok r' => loop h (some (hdr, r', n + 1, none)) tot verbose
+        | .ok r' =>
+          if verbose && (← IO.getEnv "DRIVER_DEBUG").isSome then
+            let actsS := (List.range r'.s.acts.length).filterMap (fun a => match r'.s.acts[a]? with
+              | some v => (match v.pc with | .dead => none | _ => some s!"{a}@t{v.thread}:{pcName v.pc}") | none => none)
+            IO.println s!"  {n+1} `{line}` -> {actsS}"
+          loop h (some (hdr, r', n + 1, none)) tot verbose
         | .error e => loop h (some (hdr, r, n, some s!"event {n + 1} `{line}`: {e}")) tot verbose
       | [] => loop h cur tot verbose
 
